@@ -338,6 +338,32 @@ fn read_side(ctx: &mut Ctx) {
                             c.exec();
                             let b = run_read::<Ng>(&file.bytes, bufsize, ops)?;
                             c.outcome(a.iter().fold(fi as u64, |h, o| mix(h, mix(o.ret as u64, hash_bytes(&o.bytes)))));
+                            {
+                                let mut prev: Option<u64> = None;
+                                for (k, op) in ops.iter().enumerate() {
+                                    let o = &a[k + 1];
+                                    let kind = match op {
+                                        R::Read(_) => 1,
+                                        R::Fread(..) => 2,
+                                        R::Getc => 3,
+                                        R::Ungetc(_) => 4,
+                                        R::Gets(_) => 5,
+                                        R::SeekSet(_) => 6,
+                                        R::SeekCur(_) => 7,
+                                        R::Rewind => 8,
+                                        R::Tell => 9,
+                                        R::Eof => 10,
+                                        R::Direct => 11,
+                                        R::ClearErr => 12,
+                                    };
+                                    let h = hash_u32s(&[kind, o.ret.signum() as u32, o.bytes.is_empty() as u32]);
+                                    c.state(h);
+                                    if let Some(q) = prev {
+                                        c.trans(q, h);
+                                    }
+                                    prev = Some(h);
+                                }
+                            }
                             if !ops.is_empty() {
                                 c.nontrivial();
                             }
